@@ -52,6 +52,9 @@ def strsToJson (xs : List String) : Json := Json.arr (xs.map Json.str).toArray
 def inheritedAddlOn (dflt : Bool) (c : ClassInfo) : Bool :=
   !dflt && c.decl.addl.isNone && (addlLookup (mro c) == some true)
 
+def inheritedAddlOff (dflt : Bool) (c : ClassInfo) : Bool :=
+  dflt && c.decl.addl.isNone && (addlLookup (mro c) == some false)
+
 def report (dflt apd : Bool) (c : ClassInfo) : Json :=
   Json.mkObj [
     ("name", .str c.decl.name),
@@ -65,6 +68,7 @@ def report (dflt apd : Bool) (c : ClassInfo) : Json :=
     ("fieldOrder", strsToJson ((allFields c).map (·.name))),
     ("admitsExtra", .bool (runtimeAdmitsExtra dflt c)),
     ("inheritedAddlOn", .bool (inheritedAddlOn dflt c)),
+    ("inheritedAddlOff", .bool (inheritedAddlOff dflt c)),
     ("mandatoryFirst", .bool (mandatoryFirst (stubInit dflt apd c).params))]
 
 def run (j : Json) : Except String Json := do
